@@ -449,8 +449,10 @@ def rule_default_collector(ctx):
     # cs() = with_handle(|h| h.pin()); LocalHandle::pin -> (*local).pin(); Collector::register -> Local::register(self)
     csb = prog.body("ebr_impl::default::cs")
     cl = [b2 for b2 in prog.closures_of("ebr_impl::default::cs")]
+    # (the callable handed to with_handle is a closure that calls LocalHandle::pin, or that very function as a fn item)
     ok = any(c.target == "ebr_impl::default::with_handle" for (_, _, c) in csb.calls()) and \
-        any(c.target == "ebr_impl::collector::LocalHandle::pin" for b2 in cl for (_, _, c) in b2.calls())
+        (any(c.target == "ebr_impl::collector::LocalHandle::pin" for b2 in cl for (_, _, c) in b2.calls()) or
+         any(path == "ebr_impl::collector::LocalHandle::pin" for (_, path) in csb.fn_refs()))
     r.instance("cs() == with_handle(|h| h.pin())", ok)
     if not ok:
         r.violate(csb.name, "pin", "cs() does not pin through the thread's handle", csb.loc(0))
